@@ -810,6 +810,14 @@ class set_g01:
         yield "active-slot-and-sgr-mapping-kept", both(s.charset.active == old.charset.active, s.charset._sgr_mapping == old.charset._sgr_mapping)
         yield "frame", pframe(old, s, "charset")
 
+    def ensures_callee(old, s, a, result):
+        # what a caller may assume: the clauses that do not speak about the `define` EVENTS of the body (a call site does
+        # not replay them: assuming "exactly one slot is defined" there was assuming False and silently ended every
+        # caller path on which the main charset is not UTF-8 -- found by the reach@after / DEAD vacuity aids)
+        yield "keeps-the-parser-invariant", PI(s)
+        yield "active-slot-and-sgr-mapping-kept", both(s.charset.active == old.charset.active, s.charset._sgr_mapping == old.charset._sgr_mapping)
+        yield "frame", pframe(old, s, "charset")
+
 
 # ---- modes
 
@@ -904,6 +912,12 @@ class reset:
     independent_posts = True
     inline = G.HELPERS
 
+    def effects(old, s, a, result):
+        # callee side: the default rendition is the concrete value None (the clause below compares with `is None`,
+        # which a havocked symbolic value can never satisfy: without this every caller's path would end at the call --
+        # found by the reach@after vacuity guard)
+        s.fields["attrspec"] = None
+
     def ensures(old, s, a, result):
         yield "keeps-the-parser-invariant", PI(s)
         yield "escape-machine-in-ground-state", both(neg(s.within_escape), s.parsestate == 0, tlen(s.escbuf) == 0)
@@ -915,6 +929,15 @@ class reset:
         yield "every-cell-is-a-blank-in-the-default-rendition", forall(0, old.height, lambda r: forall(0, old.width, lambda x: G.cell_eq(G.cell(s.term, r, x), (None, s.charset.current, b" "))))
         yield "a-tab-stop-every-eight-columns", both(same_value("tabstops", s.tabstops, initial_tabstops(old)), forall(0, old.width, lambda k: tabstop_at(s, k) == (k % 8 == 0)))
         yield "size-scrollback-and-utf8-assembly-untouched", pframe(old, s, *reset.modifies)
+
+    def ensures_callee(old, s, a, result):
+        # callers (ESC c in parse_noncsi) get every clause except the two doubly quantified ones about the cell contents
+        # and the individual tab stops, which no caller uses and which left the solver unable to show the point after
+        # the call reachable (reach@after came back `unknown`)
+        for label, f in reset.ensures(old, s, a, result):
+            if label not in ("every-cell-is-a-blank-in-the-default-rendition", "a-tab-stop-every-eight-columns"):
+                yield label, f
+        yield "tab-stop-table-is-the-initial-one", same_value("tabstops", s.tabstops, initial_tabstops(old))
 
 
 # =================================================================================================
